@@ -102,6 +102,18 @@ func runC20(c *Ctx) {
 		if len(stores) == 0 && badS == "" {
 			badS = "Init never stores the switch"
 		}
+		// an Init that fails leaves the switch as it was
+		for _, st := range stores {
+			for _, r := range returnsOf(initF) {
+				ei := errResultIndex(initF)
+				if ei < 0 || ei >= len(r.Results) || !iff.ProvablyNonNil(r.Results[ei], r.Block(), 0) {
+					continue
+				}
+				if canReachWithout(st, r, nil) {
+					badS = "Init can fail (return at " + p.InstrPos(r) + ") after it has already stored the switch at " + p.InstrPos(st) + ": a failed Init(.., unsafe=true) turns scrubbing off"
+				}
+			}
+		}
 		if badS != "" {
 			obS.Violate("%s", badS)
 		} else {
